@@ -1,6 +1,6 @@
 import Ptn.C06.Model
 import Ptn.C05.Lemmas
-import Ptn.C05.Props
+import Ptn.C05.Core
 /-! Property theorems for C06: completion of the one-site schedules, the centre at the end of a
 step, and time-reversibility of a palindromic composition of invertible local flows. -/
 namespace Ptn.C06
